@@ -688,11 +688,6 @@ fn lz77_config(name: &str) -> SimdLz77Config {
     }
 }
 
-fn lz77_literal_oracle_prefix(n: usize) -> Vec<u8> {
-    // the bytes `reconstruct_from_matches` substitutes for one-byte literals
-    std::iter::repeat(b'h').take(n).collect()
-}
-
 fn run_simd_lz77(v: &str, x: &[u8], _t: &[u8], _tr: Train) -> Outcome {
     let rt = match v {
         "X1" => roundtrip(
@@ -746,9 +741,8 @@ fn run_simd_lz77(v: &str, x: &[u8], _t: &[u8], _tr: Train) -> Outcome {
             )
         }),
     };
-    let _ = lz77_literal_oracle_prefix;
-    // observable fact: does the payload contain anything the match stream can carry at all?  Literal bytes are
-    // never written to the stream (only their count), so any payload with a literal cannot come back.
+    // Literal bytes are never written to the stream (only their count) and RLE runs lose their byte value, so no
+    // non-empty payload can come back: one class whatever the symptom.
     outcome(x, "roundtrip", rt, |sym| join(&["inherent", sym_kind(sym)]))
 }
 
